@@ -9,7 +9,7 @@ use crate::runner::{Ctx, Failure, PropDef, Verdict};
 use crate::simnet::app::*;
 use crate::simnet::exec::{Exec, RunEnd, Spawner, Style};
 use crate::simnet::peer::{self, PeerOp, RawPeer};
-use crate::simnet::{Net, Side};
+use crate::simnet::{Net, Side, UNLIMITED};
 use crate::tape::{prf_cells, Tape};
 
 pub static PROP: PropDef = PropDef {
@@ -19,7 +19,7 @@ pub static PROP: PropDef = PropDef {
            (c) arbitrary bytes on request, control, QPACK, push and unknown streams; x delivery schedule from the tape x unidirectional-stream credit for the h3 end (unlimited, or exactly three for ever so that its optional grease stream never opens); every script ends with one of two epilogues: the peer closes the connection, or it finishes / resets every request-stream direction it writes on. \
            oracle (validity predicate): no poll panics (h3 is built with overflow checks and debug assertions) and at quiescence no h3 future is left pending: after a close every task has completed; after the streams-only epilogue every task except the connection-level waits (accept(), poll_close) has - and those too once the peer has finished its control stream. \
            non-trivial = the fault or mutation lands before the scenario's last byte and at least one frame had been decoded; distinct by (script hash, schedule)",
-    assumptions: &["applications follow the documented call patterns (read to the end, then trailers; respond; finish); quiescence of the closed system decides 'forever'", "the transport has unlimited send credit here (back-pressure is covered by C01/C04/C14)"],
+    assumptions: &["applications follow the documented call patterns (read to the end, then trailers; respond; finish); quiescence of the closed system decides 'forever'", "send credit of the h3 end: unlimited, zero or a few bytes at the start of every stream, further credit by scheduler moves (always granted eventually)"],
     tape_len: 300,
     random_cases: |t| t.pick(2_000_000, 30_000_000),
     run_tape,
@@ -109,6 +109,8 @@ pub struct Script {
     /// the peer grants exactly three unidirectional streams and never more (RFC 9114 6.2 minimum): h3's optional grease
     /// stream can never be opened
     pub uni_frozen: bool,
+    /// send credit every stream of the h3 end starts with (the peer's flow control; more is granted by scheduler moves)
+    pub credit: u64,
 }
 
 /// well-formed templates; keys: 0 = control, 1.. = request streams, 10.. other uni streams
@@ -289,6 +291,7 @@ pub fn run_script(s: &Script, sched: &[u16], ctx: &mut Ctx) -> Verdict {
     let side = if s.server { Side::Server } else { Side::Client };
     let raw = side.other();
     net.set_raw(raw);
+    net.lock().default_credit[side.idx()] = s.credit;
     if s.uni_frozen {
         let mut g = net.lock();
         g.ends[side.idx()].stream_credit[1] = 3;
@@ -324,7 +327,7 @@ pub fn run_script(s: &Script, sched: &[u16], ctx: &mut Ctx) -> Verdict {
     let mut t = Tape::new(sched);
     let end = ex.run(&net, &mut peer, &mut t, s.style, 300_000);
     let closes = net.close_calls(side);
-    let case = || json!({"role": if s.server { "server" } else { "client" }, "label": s.label, "ops": ops_json(&s.ops), "close_epilogue": s.close_epilogue, "timeout_epilogue": s.timeout_epilogue, "style": format!("{:?}", s.style), "nreq": s.nreq, "uni_frozen": s.uni_frozen, "sched": sched, "closes": format!("{closes:?}")});
+    let case = || json!({"role": if s.server { "server" } else { "client" }, "label": s.label, "ops": ops_json(&s.ops), "close_epilogue": s.close_epilogue, "timeout_epilogue": s.timeout_epilogue, "style": format!("{:?}", s.style), "nreq": s.nreq, "uni_frozen": s.uni_frozen, "credit": if s.credit == UNLIMITED { -1 } else { s.credit as i64 }, "sched": sched, "closes": format!("{closes:?}")});
     if end == RunEnd::StepBound {
         return Err(Failure::fault("step bound"));
     }
@@ -354,6 +357,9 @@ pub fn run_script(s: &Script, sched: &[u16], ctx: &mut Ctx) -> Verdict {
     ctx.class(s.label);
     if s.uni_frozen {
         ctx.class("grease_stream_blocked_for_ever");
+    }
+    if s.credit != UNLIMITED {
+        ctx.class("limited_send_credit");
     }
     if !closes.is_empty() && closes[0].code != code::NO_ERROR {
         ctx.class("h3_closed_with_error");
@@ -398,14 +404,14 @@ fn exhaustive(ctx: &mut Ctx, shard: usize, nshards: usize) -> Verdict {
                 if idx % nshards == shard {
                     for style in [Style::Eager, Style::Tiny] {
                         for uni_frozen in [false, true] {
-                            run_script(&Script { server, ops: ops.clone(), close_epilogue: epi, timeout_epilogue: false, style, nreq, label: "template", uni_frozen }, &[], ctx)?;
+                            run_script(&Script { server, ops: ops.clone(), close_epilogue: epi, timeout_epilogue: false, style, nreq, label: "template", uni_frozen, credit: if uni_frozen { 1 } else { UNLIMITED } }, &[], ctx)?;
                         }
                     }
                 }
                 // one fault at every step index
                 for at in 0..=ops.len() {
                     for fault in 0..5 {
-                        for code in [0u64, 1, 2, 0x10c] {
+                        for code in [0u64, 1, 0x100, 0x10c] {
                             idx += 1;
                             if idx % nshards != shard {
                                 continue;
@@ -417,7 +423,7 @@ fn exhaustive(ctx: &mut Ctx, shard: usize, nshards: usize) -> Verdict {
                             let cells = prf_cells(idx as u64, 80);
                             for (style, sch) in [(Style::Eager, &[][..]), (Style::Random, &cells[..])] {
                                 for uni_frozen in [false, true] {
-                                    run_script(&Script { server, ops: o.clone(), close_epilogue: epi, timeout_epilogue: false, style, nreq, label: "fault_injected", uni_frozen }, sch, ctx)?;
+                                    run_script(&Script { server, ops: o.clone(), close_epilogue: epi, timeout_epilogue: false, style, nreq, label: "fault_injected", uni_frozen, credit: [UNLIMITED, 0, 1, 2, 6][(at + fault) % 5] }, sch, ctx)?;
                                 }
                             }
                         }
@@ -434,7 +440,7 @@ fn exhaustive(ctx: &mut Ctx, shard: usize, nshards: usize) -> Verdict {
                             let mut o = ops.clone();
                             o[i] = PeerOp::Write(*k, b[..cut].to_vec());
                             // what followed on that stream would be misaligned garbage: keep it (that is the point)
-                            run_script(&Script { server, ops: o, close_epilogue: epi, timeout_epilogue: false, style: if cut % 2 == 0 { Style::Eager } else { Style::Tiny }, nreq, label: "bytes_mutated", uni_frozen: cut % 3 == 1 }, &[], ctx)?;
+                            run_script(&Script { server, ops: o, close_epilogue: epi, timeout_epilogue: false, style: if cut % 2 == 0 { Style::Eager } else { Style::Tiny }, nreq, label: "bytes_mutated", uni_frozen: cut % 3 == 1, credit: [UNLIMITED, 1, 3][cut % 3] }, &[], ctx)?;
                         }
                     }
                 }
@@ -450,7 +456,7 @@ fn exhaustive(ctx: &mut Ctx, shard: usize, nshards: usize) -> Verdict {
                     continue;
                 }
                 let (ops, nreq) = big_script(server, trailers, n, shape);
-                run_script(&Script { server, ops, close_epilogue: if n % 2 == 0 { None } else { Some(0x100) }, timeout_epilogue: false, style: Style::Eager, nreq, label: "large_field_section", uni_frozen: false }, &[], ctx)?;
+                run_script(&Script { server, ops, close_epilogue: if n % 2 == 0 { None } else { Some(0x100) }, timeout_epilogue: false, style: Style::Eager, nreq, label: "large_field_section", uni_frozen: false, credit: UNLIMITED }, &[], ctx)?;
             }
         }
     }
@@ -546,6 +552,12 @@ fn run_tape(tape: &[u16], ctx: &mut Ctx) -> Verdict {
         nreq,
         label,
         uni_frozen: t.chance(1, 4),
+        credit: match t.pick(6) {
+            0 | 1 | 2 => UNLIMITED,
+            3 => 0,
+            4 => t.int(1, 8),
+            _ => t.int(1, 300),
+        },
     };
     let sched: Vec<u16> = tape[t.position().min(tape.len())..].to_vec();
     run_script(&s, &sched, ctx)
@@ -597,6 +609,6 @@ fn run_direct(d: &Value, ctx: &mut Ctx) -> Verdict {
         _ => Style::Random,
     };
     let sched: Vec<u16> = d["sched"].as_array().map(|a| a.iter().map(|x| x.as_u64().unwrap_or(0) as u16).collect()).unwrap_or_default();
-    let s = Script { server: d["role"].as_str() == Some("server"), ops, close_epilogue: d["close_epilogue"].as_u64(), timeout_epilogue: d["timeout_epilogue"].as_bool().unwrap_or(false), style, nreq: d["nreq"].as_u64().unwrap_or(1) as usize, label: "replay", uni_frozen: d["uni_frozen"].as_bool().unwrap_or(false) };
+    let s = Script { server: d["role"].as_str() == Some("server"), ops, close_epilogue: d["close_epilogue"].as_u64(), timeout_epilogue: d["timeout_epilogue"].as_bool().unwrap_or(false), style, nreq: d["nreq"].as_u64().unwrap_or(1) as usize, label: "replay", uni_frozen: d["uni_frozen"].as_bool().unwrap_or(false), credit: d["credit"].as_i64().map(|c| if c < 0 { UNLIMITED } else { c as u64 }).unwrap_or(UNLIMITED) };
     run_script(&s, &sched, ctx)
 }
